@@ -145,7 +145,7 @@ class Bus:
             self.capture.append(Frame(-1, w.now, node.name, can_id, ext, data, fd))
             return
         n = len(self.log)
-        node.last_tx_t = w.now
+        node.last_tx_t = w.now           # (moved on to the time the call returns further down, if the driver blocks)
         if len(self.log) >= self.cap:
             self.storm = True
             return
@@ -159,6 +159,7 @@ class Bus:
         t_bus = t_ret - (1.0 - self.send_visible) * cost                      # when the frame is on the bus
         if cost:
             node.busy_until = t_ret
+            node.last_tx_t = t_ret
         fr = Frame(n, t_bus, node.name, can_id, ext, data, fd)
         fr.injected = injected
         self.log.append(fr)
